@@ -12,6 +12,8 @@
 #include "csg/src/libcsg/orthorhombicbox.cc"
 #include "csg/src/libcsg/triclinicbox.cc"
 #include "csg/src/libcsg/openbox.cc"
+#include "tools/src/libtools/property.cc"
+#include "csg/src/libcsg/molecule.cc"
 #include "csg/src/libcsg/map.cc"
 #include "csg/src/libcsg/topologymap.cc"
 #include "csg/src/libcsg/topology.cc"
@@ -60,4 +62,25 @@ H void h_topmap(const double* oldbox, const double* newbox, double step, double 
   const Eigen::Matrix3d& b = cg.getBox();
   for (int i = 0; i < 3; i++) for (int j = 0; j < 3; j++) out[3 * j + i] = b(i, j);
   out[9] = (double)cg.getBoxType(); out[10] = (double)in.getBoxType(); out[11] = (double)cg.getStep(); out[12] = cg.getTime();
+}
+
+// Map_Sphere::Initialize: parents named A0..A(n-1); weights / d given as text (the checker supplies placeholder tokens whose
+// numeric conversion is the only stub).  out[2*i] = stored weight of element i, out[2*i+1] = stored force weight; returns the
+// number of stored elements, -1 if Initialize throws.  order[i] = id of the parent stored at position i.
+H long h_init(long n, const char* weights, const char* dtext, long has_d, double* out, long* order) {
+  std::vector<std::unique_ptr<Bead>> parents; Molecule mol(0, "M");
+  std::string names;
+  for (long i = 0; i < n; i++) {
+    std::string nm = "A"; nm += (char)('0' + i);
+    parents.emplace_back(new Bead(i, "T", Bead::spherical, nm, 0, 1.0, 0.0));
+    mol.AddBead(parents.back().get(), nm); names += (i ? " " : "") + nm;
+  }
+  votca::tools::Property ob, om;
+  ob.add("beads", names); ob.add("name", "cgbead"); om.add("weights", weights); om.add("name", "map");
+  if (has_d) om.add("d", dtext);
+  Bead cg(100, "CG", Bead::spherical, "C", 0, 0.0, 0.0);
+  Map_Sphere m;
+  try { m.Initialize(&mol, &cg, &ob, &om); } catch (...) { return -1; }
+  for (size_t i = 0; i < m.matrix_.size(); i++) { out[2 * i] = m.matrix_[i].weight_; out[2 * i + 1] = m.matrix_[i].force_weight_; order[i] = m.matrix_[i].in_->getId(); }
+  return (long)m.matrix_.size();
 }
